@@ -46,16 +46,48 @@ def objname(src):
     return rel.replace("/", "_").replace(".c", ".o")
 
 
-def compile_many(jobs):
-    """jobs: list of (cmd list). Runs them in parallel."""
+_SIM_HASH = None
+
+
+def sim_sources_hash():
+    """hash of every harness source under /verif/sim (cache key part for harness objects)"""
+    global _SIM_HASH
+    if _SIM_HASH is None:
+        h = hashlib.sha256()
+        for root, dirs, files in sorted(os.walk(os.path.join(VERIF, "sim"))):
+            dirs.sort()
+            for f in sorted(files):
+                if f.endswith((".c", ".cpp", ".h", ".hpp")):
+                    h.update(f.encode())
+                    with open(os.path.join(root, f), "rb") as fh:
+                        h.update(fh.read())
+        _SIM_HASH = h.hexdigest()
+    return _SIM_HASH
+
+
+def compile_many(jobs, cacheable=()):
+    """jobs: list of (cmd list). Runs them in parallel.  Jobs whose index is in `cacheable`
+    compile harness-only sources (nothing from /repo) and are cached under build/cache."""
     procs = []
-    for cmd in jobs:
-        procs.append((cmd, subprocess.Popen(cmd, stdout=subprocess.PIPE, stderr=subprocess.STDOUT, text=True)))
+    cache_dir = os.path.join(BUILD, "cache")
+    os.makedirs(cache_dir, exist_ok=True)
+    for i, cmd in enumerate(jobs):
+        out = cmd[cmd.index("-o") + 1]
+        key = None
+        if i in cacheable:
+            key = hashlib.sha256((" ".join(cmd[:cmd.index("-o")]) + sim_sources_hash()).encode()).hexdigest()[:24]
+            c = os.path.join(cache_dir, key + ".o")
+            if os.path.exists(c):
+                shutil.copyfile(c, out)
+                continue
+        procs.append((cmd, subprocess.Popen(cmd, stdout=subprocess.PIPE, stderr=subprocess.STDOUT, text=True), key, out))
     errs = []
-    for cmd, p in procs:
-        out, _ = p.communicate()
+    for cmd, p, key, out in procs:
+        o, _ = p.communicate()
         if p.returncode != 0:
-            errs.append("command failed: %s\n%s" % (" ".join(cmd), out))
+            errs.append("command failed: %s\n%s" % (" ".join(cmd), o))
+        elif key:
+            shutil.copyfile(out, os.path.join(cache_dir, key + ".o"))
     if errs:
         raise BuildError("\n".join(errs))
 
@@ -105,21 +137,25 @@ def build_hist(backend, extra=False):
     inc = ["-I" + os.path.join(REPO, "include"), "-I" + REPO] + BACKEND_DEFS[backend] + defs
     sim = os.path.join(VERIF, "sim")
     jobs = []
+    cacheable = set()
     shim_o = os.path.join(d, "shim.o")
     jobs.append([CC, "-std=gnu99", "-Wall"] + REPO_CPP + inc + ASAN + ["-c", os.path.join(sim, "hist/shim.c"), "-o", shim_o])
     rt_o = os.path.join(d, "simrt.o")
     rtdefs = ["-DSIM_WRAP_IDN2"] if backend == "idn2" else []
+    cacheable.add(len(jobs))
     jobs.append([CC, "-std=gnu99", "-Wall"] + ASAN + rtdefs + ["-c", os.path.join(sim, "hist/simrt.c"), "-o", rt_o])
     more = [shim_o, rt_o]
     if backend != "idn2":
         ad_o = os.path.join(d, "adapter.o")
+        cacheable.add(len(jobs))
         jobs.append([CC, "-std=gnu99", "-Wall"] + ASAN + ["-I" + os.path.join(sim, "adapters")]
                     + ["-c", os.path.join(sim, "adapters/adapter_%s.c" % backend), "-o", ad_o])
         more.append(ad_o)
     h_o = os.path.join(d, "hist.o")
+    cacheable.add(len(jobs))
     jobs.append([CXX, "-std=c++17", "-Wall"] + ASAN + ["-c", os.path.join(sim, "hist/hist.cpp"), "-o", h_o])
     more.append(h_o)
-    compile_many(jobs)
+    compile_many(jobs, cacheable)
     exe = os.path.join(d, "hist")
     wraps = list(HIST_WRAPS) + (["idn2_to_ascii_8z"] if backend == "idn2" else [])
     run([CXX, "-fsanitize=address,undefined", "-o", exe] + more + objs + ["-lidn2"]
